@@ -19,10 +19,10 @@ PROPS = {
                 quick=dict(runs=1000, budget_s=150, min_runs=150),
                 thorough=dict(runs=20000, budget_s=900, min_runs=1500),
                 watchdog_s=120, spot=4, jaxcache=True),
-    'C19': dict(engine='solver_sim',
-                quick=dict(runs=900, budget_s=120, min_runs=100),
-                thorough=dict(runs=15000, budget_s=900, min_runs=1000),
-                watchdog_s=120, spot=4, jaxcache=True),
+    'C19': dict(engine='c19_sim',
+                quick=dict(runs=720, budget_s=200, min_runs=100),
+                thorough=dict(runs=12000, budget_s=1800, min_runs=1000),
+                watchdog_s=240, spot=4, jaxcache=True),
     'C04': dict(engine='al_sim',
                 quick=dict(runs=240, budget_s=180, min_runs=40),
                 thorough=dict(runs=6000, budget_s=1800, min_runs=400),
